@@ -65,6 +65,8 @@ type Setup struct {
 	OnPhaseEnd func(w *World, phase int)
 	// Cleanup is called when the run is over (scratch files etc.).
 	Cleanup func()
+	// Ext carries check-specific simulated services to the oracle.
+	Ext any
 }
 
 // World is one simulated run.
@@ -153,6 +155,9 @@ func (w *World) after(d time.Duration, name string, fn func()) *tev {
 	w.events = append(w.events, e)
 	return e
 }
+
+// After schedules fn as a simulator event d from now (for simulated services attached to the world).
+func (w *World) After(d time.Duration, name string, fn func()) { w.after(d, name, fn) }
 
 // brokerConfig builds the gmqtt configuration of a node from the plan.
 func (w *World) brokerConfig(n int) config.Config {
